@@ -393,7 +393,13 @@ func init() {
 			return errors.WithTelemetry(k[0], keys...)
 		}})
 	def(WDomain, KindInfo{Slots: "S", Name: "errors.WithDomain", Arity: Wrap, Groups: GLib | GAnnot,
-		build: func(n *Node, k, _ []error) error { return errors.WithDomain(k[0], errors.NamedDomain(n.S[0].V)) }})
+		build: func(n *Node, k, _ []error) error {
+			if n.S[0].V == "" {
+				// an explicit "no domain" annotation
+				return errors.WithDomain(k[0], errors.NoDomain)
+			}
+			return errors.WithDomain(k[0], errors.NamedDomain(n.S[0].V))
+		}})
 	def(WIssueLink, KindInfo{Slots: "SS", Name: "errors.WithIssueLink", Arity: Wrap, Groups: GLib | GAnnot,
 		build: func(n *Node, k, _ []error) error {
 			return errors.WithIssueLink(k[0], errors.IssueLink{IssueURL: n.S[0].V, Detail: n.S[1].V})
